@@ -26,7 +26,7 @@ def psd_classes(prog, include_daniell=False):
     return out
 
 
-def ctor_args(cls, cplx, parity, scale=None, sampling=True, overrides=None, phase=False, small_orders=False):
+def ctor_args(cls, cplx, parity, scale=None, sampling=True, overrides=None, phase=False, small_orders=False, nparity=None):
     """abstract constructor keyword arguments chosen by parameter *name* from the class' own __init__ signature"""
     init = cls.find_method('__init__')
     if init is None:
@@ -35,7 +35,11 @@ def ctor_args(cls, cplx, parity, scale=None, sampling=True, overrides=None, phas
     kw = {}
     for n in names:
         if n == 'data':
-            kw[n] = C.data(cplx, phase=phase)
+            dl = None
+            if nparity is not None:
+                Aff.SYM_MIN['n'] = 4
+                dl = Aff.sym('n').scale(2) + (1 if nparity == 'odd' else 0)
+            kw[n] = C.data(cplx, phase=phase, n=dl)
         elif n in ('order', 'IP', 'P'):
             kw[n] = C.symint('P', 2, 'order') if not small_orders else Const(3, frozenset(['order']))
         elif n in ('Q',):
